@@ -37,6 +37,7 @@ def run(facts, rep):
     d4_isolation(facts, rep)
     d5_budget(facts, rep)
     d6_join(facts, rep)
+    d7_scope_symmetry(facts, rep)
 
 
 def ops_on(fn, member, kinds=None):
@@ -314,3 +315,52 @@ def d6_join(facts, rep):
         ok, wit = every_path_passes(fn, 'entry', lambda p, e: p in set(c[0] for c in ol))
         rep.ob('D6', 'K3', fn, 'every path out of arena::process drops the worker reference (on_thread_leaving)', ok and bool(ol), wit)
     rep.floor('D6', 2, 'join / leave')
+
+
+
+# ---------------------------------------------------------------------------------------------------------------
+def d7_scope_symmetry(facts, rep):
+    """Scope objects (nested_arena_context for task_arena::execute / isolate, context_guard_helper ...): what the constructor
+    saves on EVERY path by copying state that lives outside the object must be used by the destructor on EVERY path.  A
+    restore that moved under a condition leaves the thread with the scope's settings - for nested_arena_context the
+    dispatcher's execution data, i.e. the isolation tag and the context of the region the thread returns to."""
+    from engine.rules import member_accesses as macc
+    by_cls = {}
+    for fn in facts.fns.values():
+        if fn.kind in ('ctor', 'dtor') and fn.cls and fn.cls.startswith(R1):
+            by_cls.setdefault(fn.cls, {}).setdefault(fn.kind, []).append(fn)
+    n = 0
+    for cls, d in sorted(by_cls.items()):
+        if 'ctor' not in d or 'dtor' not in d:
+            continue
+        for ct in d['ctor']:
+            saves = {}
+            for b, blk in ct.blocks.items():
+                for i, e in enumerate(blk['e']):
+                    # written member initialiser (default member initialisers carry the line of the member declaration)
+                    if isinstance(e, dict) and 'i' in e and not e['i'].startswith('(base)') and ct.l0 <= e.get('ln', 0) <= ct.l1:
+                        saves.setdefault(e['i'], []).append(((b, i), e.get('s')))
+            for pos, sx, l, r in assignments(ct):
+                ln = ct.n(ct.strip(l))
+                if ln.get('k') == 'member' and ct.n(ln.get('base', -1)).get('k') == 'this':
+                    saves.setdefault(ln['n'], []).append((pos, r))
+            for name, sites in sorted(saves.items()):
+                # external state: the saved value is read through a parameter or another object, not a constant
+                ext = any(val is not None and any(ct.nodes[x].get('k') in ('member', 'call') or (ct.nodes[x].get('k') == 'var' and 'param' in ct.nodes[x])
+                                                  for x in ct.subtree(val)) for _, val in sites)
+                uncond = any(every_path_passes(ct, 'entry', lambda p, e, pp=pp: p == pp)[0] for pp, _ in sites)
+                if not (ext and uncond):
+                    continue
+                for dt in d['dtor']:
+                    reads = [x for x in macc(dt, (name,)) if dt.n(x[2].get('base', -1)).get('k') == 'this']
+                    if not reads:
+                        continue
+                    rp = set(x[0] for x in reads)
+                    ok, wit = every_path_passes(dt, 'entry', lambda p, e: p in rp)
+                    n += 1
+                    rep.ob('D7', 'K3', dt, '%s: what the constructor always saves in %s is used by the destructor on every path'
+                           % (cls.split('::')[-1], name), ok,
+                           'the state saved in %s is restored only on some paths of the destructor: on the others the thread keeps the '
+                           'scope\'s settings (for nested_arena_context: isolation tag and context of task_arena::execute) after the '
+                           'scope ended: %s' % (name, wit), key_extra='%s.%s' % (cls, name))
+    rep.floor('D7', 4, 'saved members of scope classes')
